@@ -14,6 +14,7 @@ import (
 	"github.com/feichai0017/NoKV/metrics"
 	transportpkg "github.com/feichai0017/NoKV/raftstore/transport"
 	"github.com/feichai0017/NoKV/utils"
+	"github.com/feichai0017/NoKV/utils/verifhook"
 	"github.com/feichai0017/NoKV/wal"
 )
 
@@ -291,6 +292,9 @@ func (s *Stats) run() {
 // collect snapshots background queues and propagates them to expvar.
 func (s *Stats) collect() {
 	if s == nil {
+		return
+	}
+	if verifhook.Paused("stats") {
 		return
 	}
 	snap := s.Snapshot()
